@@ -168,6 +168,52 @@ BOUNDS = {"quick": {h: 1 for h in HARNESSES}, "thorough": {h: 2 for h in HARNESS
 BOUNDS["thorough"].update({"H1a": 3, "H2": 3})
 
 
+# ---- per-harness invariants on tagged values: every thread's results are its own ---------------------------------------------
+def _inv_h1(args):
+    def inv(results):
+        for t, (db, sc) in enumerate(args):
+            r = results[t]
+            if r[0] != "ok":
+                continue
+            want = (db.upper(), sc.upper())
+            if r[1][0] != want:
+                return f"thread{t}:connect_reports_other_names"
+            if len(r[1]) > 1 and r[1][1] != [want]:
+                return f"thread{t}:session_context_is_not_its_own"
+        return None
+
+    return inv
+
+
+def _inv_h6(results):
+    a, b = results[0], results[1]
+    if a[0] == "ok" and len(a[1]) > 1 and a[1][1] != (["FROM_A"], [(1,), (2,)], 2):
+        return "thread0:received_other_result"
+    if b[0] == "ok" and len(b[1]) > 1 and b[1][1] != (["FROM_B", "N"], [("b", 5)], 1):
+        return "thread1:received_other_result"
+    return None
+
+
+def _inv_h2(results):
+    for t, tag in ((0, 1), (1, 2)):
+        if results[t][0] == "ok" and results[t][1][0] != ([(1,)], 1):
+            return f"thread{t}:insert_status_not_its_own"
+    r = results[2]
+    if r[0] == "ok" and not set(x[0] for x in r[1][0][0]) <= {1, 2}:
+        return "reader:foreign_rows"
+    return None
+
+
+INVARIANTS = {
+    "H1a": _inv_h1([("db1", "s1"), ("db1", "s1")]),
+    "H1b": _inv_h1([("db1", "s1"), ("db1", "s2")]),
+    "H1c": _inv_h1([("db1", "s1"), ("db2", "s2")]),
+    "H4": _inv_h1([("db9", "s9")]),
+    "H6": _inv_h6,
+    "H2": _inv_h2,
+}
+
+
 def body_of(steps):
     def body(env):
         loc = {}
@@ -296,6 +342,11 @@ def run_one(item, acc: core.Acc, tier):
     elif key not in serial:
         cls = f"{hname}:{explain(hname, results, serial)}"
         acc.violation("C19.serializable", cls, {"results": results, "preemptions": npre, "serial_outcomes": len(serial)}, rp)
+    inv = INVARIANTS.get(hname)
+    if inv is not None:
+        bad = inv(results)
+        if bad:
+            acc.violation("C19.own_results", f"{hname}:{bad}", {"results": results, "preemptions": npre}, rp)
     if npre and len(acc.samples) < 2:
         acc.sample({"harness": hname, "schedule": x["choices"], "switches": [p[2][c] for p, c in zip(x["points"], x["choices"]) if c != 0], "results": results})
     return sched.children(len(prefix), x["choices"], x["points"], bound)
